@@ -2986,15 +2986,15 @@ def aten_diagonal(self: TTensor, offset: int = 0, dim1: int = 0, dim2: int = 1) 
     mask_shape = op.Concat(dim1_size, dim2_size, axis=0)
     mask = op.EyeLike(op.ConstantOfShape(mask_shape), k=offset)
 
+    # Select with Where rather than multiplying by the mask: inf * 0 and nan * 0 are nan
+    mask = op.Cast(mask, to=BOOL.dtype)
     if is_bool:
         self_int = op.Cast(self, to=INT64.dtype)
-        mask_int = op.Cast(mask, to=INT64.dtype)
         self_int_t = op.Transpose(self_int, perm=perm)
-        result = op.Mul(self_int_t, mask_int)
+        result = op.Where(mask, self_int_t, op.Constant(value_int=0))
     else:
-        mask = op.CastLike(mask, self)
         self_t = op.Transpose(self, perm=perm)
-        result = op.Mul(self_t, mask)
+        result = op.Where(mask, self_t, op.CastLike(op.Constant(value_int=0), self))
     result = op.ReduceSum(result, keepdims=False, axes=axes)
     # min(row, col)
     min_dim_size = op.Min(dim1_size, dim2_size)
